@@ -18,7 +18,7 @@ func init() {
 			return 1200
 		},
 		Gen: func(r *Rng, tier string, idx int) Case {
-			classes := []string{"uniform", "secbound", "pow2", "grid256", "pairs", "t32", "totime", "f64"}
+			classes := []string{"uniform", "secbound", "pow2", "grid256", "pairs", "t32", "totime", "f64", "secbound", "winend"}
 			cl := classes[idx%len(classes)]
 			const maxNs = int64(2085978495) * 1e9 // 2036-02-07 06:28:15 UTC: NTP era 0 ends
 			ops := []string{}
@@ -30,7 +30,14 @@ func init() {
 					ops = append(ops, fmt.Sprintf("ntp %d", rnd()))
 				case "secbound":
 					s := rnd() / 1e9 * 1e9
-					ops = append(ops, fmt.Sprintf("ntp %d", s+int64(r.Range(-3, 3))))
+					off := int64(r.Range(-3, 3))
+					if r.Bool() {
+						off = int64(r.Range(-700, 700)) // the float grid is 2^-21 s = 477 ns here
+					}
+					if s+off < 0 {
+						off = 0
+					}
+					ops = append(ops, fmt.Sprintf("ntp %d", s+off))
 				case "pow2":
 					e := r.Range(0, 60)
 					v := (int64(1) << uint(e)) + int64(r.Range(-600, 600))
@@ -58,6 +65,16 @@ func init() {
 						tt = 0
 					}
 					ops = append(ops, fmt.Sprintf("t32 %d %d", verifhooks.ToNTP32(time.Unix(0, tt)), ref))
+				case "winend":
+					// the end of a 2^16-second NTP window: reference and instant within a microsecond of it
+					k := int64(r.Range(33707, 65530))
+					end := (k*65536 - 2208988800) * 1e9
+					if end <= 0 || end >= maxNs {
+						end = (40000*65536 - 2208988800) * 1e9
+					}
+					tt := end - int64(r.Range(0, 700))
+					ref := tt + int64(r.Pick(0, 0, -40, 40, -500, 300, 1000))
+					ops = append(ops, fmt.Sprintf("ntp %d", tt), fmt.Sprintf("t32 %d %d", verifhooks.ToNTP32(time.Unix(0, tt)), ref))
 				case "totime":
 					ops = append(ops, fmt.Sprintf("totime %d", r.U64()))
 				case "f64":
